@@ -915,7 +915,8 @@ def gen_cases(ctx):
         if not T and conn != "http":
             # quick tier: the full sweep on the client, a sample of the negative lengths on the others
             keep = {"-0", "-1", "-2", "-%d" % len(body), "-%d" % (len(body) + 1), "-%d" % (len(body) + 8)}
-            sweeps = [(f, v) for f, v in sweeps if not (f == "Content-Length" and v.startswith("-") and v[1:].isdigit() and v not in keep)]
+            sweeps = [(f, v) for f, v in sweeps if not (f == "Content-Length" and v.startswith("-") and v[1:].isdigit() and v not in keep)
+                      and len(v) < 100]
         for field, v in sweeps:
             f1 = first.replace("200", v) if field == "status" else first
             hdrs = [("CSeq", v if field == "CSeq" else "1"), ("Content-Length", v if field == "Content-Length" else str(len(body)))]
@@ -1304,6 +1305,29 @@ def judge_timed(ctx, case, coq):
     return len(plans)
 
 
+class CaseSink:
+    """Two CoqCases collections evaluated concurrently: a few heavy records per file for the groups
+    with kilobyte streams (every single cut of a 2 KB HAP stream), many light ones per file for HTTP."""
+    HEAVY = ("hap", "lay", "mrp", "companion")
+
+    def __init__(self, ctx):
+        imports = "From PV Require Import Common.Cases Common.Framing C02.Model.\nLocal Open Scope N_scope."
+        self.heavy = common.CoqCases(ctx, imports, per_file=3)
+        self.light = common.CoqCases(ctx, imports, per_file=30)
+        for g, (fn, typ) in GROUPS.items():
+            (self.heavy if g in self.HEAVY else self.light).group(g, fn, typ)
+
+    def add(self, g, term, meta):
+        (self.heavy if g in self.HEAVY else self.light).add(g, term, meta)
+
+    def run(self):
+        from concurrent.futures import ThreadPoolExecutor
+        with ThreadPoolExecutor(max_workers=2) as ex:
+            a = ex.submit(self.heavy.run, 1500)
+            b = ex.submit(self.light.run, 1500)
+            return a.result() + b.result()
+
+
 # ------------------------------------------------------------------------------- entry points
 
 def run(ctx):
@@ -1317,9 +1341,7 @@ def run(ctx):
                 "with every single cut, every pair of cuts (streams <= %d bytes), byte-at-a-time and random multi-cuts; "
                 "one evaluation = one segmentation run on the real class; distinct = distinct streams; non-trivial = at "
                 "least one message delivered" % (230 if ctx.thorough else 70))
-    coq = common.CoqCases(ctx, "From PV Require Import Common.Cases Common.Framing C02.Model.\nLocal Open Scope N_scope.", per_file=40)
-    for g, (fn, typ) in GROUPS.items():
-        coq.group(g, fn, typ)
+    coq = CaseSink(ctx)
     # corpus first
     for fname, d in common.load_corpus(ctx.pid):
         case = case_of_replay(d["case"])
@@ -1337,7 +1359,7 @@ def run(ctx):
         if case["conn"] == "http" and case["valid"] and case.get("frames"):
             total += judge_timed(ctx, case, coq)
     ctx.note("implementation runs: %d segmentations of %d streams" % (total, len(cases)))
-    mism = coq.run(timeout=1500)
+    mism = coq.run()
     for g, meta in mism:
         ctx.tie_broken("correspondence:" + g, json.dumps(meta, default=repr)[:3000])
     ctx.traces = total
